@@ -40,6 +40,39 @@ def _ident_built(fn, pattern, args, span):
     return False
 
 
+def _let_init(fn, name):
+    """initialiser of the single immutable `let <name> = ..` of the function, else None"""
+    found = []
+    for st, _ in A.find(fn.block, "Stmt::Local"):
+        pat = st["pat"]
+        if A.kind(pat) == "Pat::Type":
+            pat = pat["pat"]
+        if A.kind(pat) == "Pat::Ident" and pat["ident"]["sym"] == name and not pat.get("mutability") and st.get("init"):
+            found.append(st["init"]["expr"])
+    return found[0] if len(found) == 1 else None
+
+
+def _expand_lets(fn, als, text):
+    """`<name>` holes of an identifier text whose name is an immutable `let` of the function (however often it is used:
+    `let snake = v.ident.unraw()..; format_ident!("unwrap_{snake}")` three times) replaced by `<its initialiser>`"""
+    if not text:
+        return text
+    lets = {}
+    for st, _ in A.find(fn.block, "Stmt::Local"):
+        pat = st["pat"]
+        if A.kind(pat) == "Pat::Type":
+            pat = pat["pat"]
+        if A.kind(pat) == "Pat::Ident" and not pat.get("mutability") and st.get("init"):
+            n_ = pat["ident"]["sym"]
+            lets[n_] = None if n_ in lets else st["init"]["expr"]
+
+    def sub(m):
+        e_ = lets.get(m.group(1))
+        return "<" + A.inline_text(A.render(e_), als).replace(" ", "") + ">" if e_ is not None else m.group(0)
+
+    return re.sub(r"<(\w+)>", sub, text)
+
+
 def _ident_text(fn, e, env=None, depth=0):
     """the text an identifier-building expression yields, with `<expr>` for each formatted argument: a `format_ident!`
     (named, inline or positional arguments; `span =` ignored), or a call of a same-file helper that is one, its
@@ -163,7 +196,8 @@ def rule_accessors(ctx):
                 ctx,
                 f"{kind_}:{nm}",
                 re.search(r'let %s=format_ident!\("%s_\{\}%s",%s\.ident\.unraw\(\)\.to_string\(\)\.to_case\(Case::Snake\),span=%s\.ident\.span\(\)\)' % (nm, kind_, pre, re.escape(V), re.escape(V)), ti.replace(" ", "").replace("let" + nm, "let " + nm)) is not None
-                or (nm in als and _ident_text(fn, als[nm][0]) == f"{kind_}_<{V}.ident.unraw().to_string().to_case(Case::Snake)>{pre}"),
+                or (nm in als and _ident_text(fn, als[nm][0]) == f"{kind_}_<{V}.ident.unraw().to_string().to_case(Case::Snake)>{pre}")
+                or (_let_init(fn, nm) is not None and _expand_lets(fn, als, _ident_text(fn, _let_init(fn, nm))) == f"{kind_}_<{V}.ident.unraw().to_string().to_case(Case::Snake)>{pre}"),
                 w,
                 f"{kind_}: `{nm}` is not `{kind_}_<snake_case(variant)>{pre}`",
             )
